@@ -958,6 +958,7 @@ class SymArr:
         ctx.assume(z3.ForAll([i], z3.Implies(z3.And(i >= 0, i < n), z3.And(TAU(i) >= 0, TAU(i) < n, SG(TAU(i)) == i)), patterns=[TAU(i)]))
         r = SymArr((self.shape[0],), lambda t: Sym(SG(t)), "int", name=nm)
         r.sigma, r.tau = SG, TAU
+        ctx.ghost.setdefault("argsort", []).append((SG, TAU, self))  # ghost access for completeness arguments
         if hasattr(self, "as_type"):
             r.as_type = self.as_type
         return r
